@@ -27,11 +27,11 @@ META = {
 
 
 def bounds(tier):
-    return {"depth": 9 if tier == "quick" else 12, "shared_calls": 4}
+    return {"depth": 9 if tier == "quick" else 11, "shared_calls": 3}
 
 
 def tasks(tier):
-    depth = 9 if tier == "quick" else 12
+    depth = 9 if tier == "quick" else 11
     out = []
     for mx, W in itertools.product([0, 1, 2, 3], [2, 3]):
         out.append({"family": "budget-raw", "cfg": {"max": mx, "window": W}, "entry": "Budget",
@@ -48,7 +48,7 @@ def tasks(tier):
         for sp in prefixes if (mx == 2 and tier == "thorough") else [None]:
             out.append({"family": "budget-shared", "cfg": dict(cfg, script_prefix=sp),
                         "entry": pat[0], "bound": 1, "entries": list(pat),
-                        "ncalls": 3 if tier == "quick" else 4, "ticks": sorted({0, 1, W}),
+                        "ncalls": 3, "ticks": sorted({0, 1, W}),
                         "weight": 9 if mx == 2 else 4})
     return out
 
